@@ -55,7 +55,8 @@ pub(crate) struct DownSampledData<R: Resampler> {
     debug_tss: Vec<Timestamp>,
 
     resampler: R,
-    ts_sum: Timestamp,
+    /// wider than a timestamp, the sum of a bucket of large timestamps does not fit u64
+    ts_sum: u128,
     resample_state: R::State,
 }
 
@@ -273,14 +274,16 @@ where
     fn process(&mut self, ts: Timestamp, line: &[u8]) -> Result<(), data::PushError> {
         let data = self.resampler.decode_payload(line);
         self.resample_state.add(data);
-        self.ts_sum += ts;
+        self.ts_sum += u128::from(ts);
         self.debug_tss.push(ts);
 
         self.samples_in_bin += 1;
         if self.samples_in_bin >= self.config.bucket_size {
             let resampled_item = self.resample_state.finish(self.config.bucket_size);
             let resampled_line = self.resampler.encode_item(&resampled_item);
-            let resampled_time = self.ts_sum / self.config.bucket_size as u64;
+            let resampled_time = self.ts_sum / self.config.bucket_size as u128;
+            let resampled_time =
+                u64::try_from(resampled_time).expect("mean of u64s fits u64");
             assert!(
                 resampled_time <= ts,
                 "resampled_time should never be larger then last timestamp put into bin. \
